@@ -146,6 +146,9 @@ func (e *Engine) wf(t types.Type, l []Term, next Term, cs *[]Term) {
 			if c := coreOf(tp); c != nil {
 				e.wf(c, l, next, cs)
 			}
+		} else if len(l) == 2 {
+			// a nil interface has no payload
+			*cs = append(*cs, Implies(Eq(l[0], IntLit(0)), Eq(l[1], e.ctx.Const("zero_Box", l[1].Sort))))
 		}
 	}
 }
